@@ -254,6 +254,7 @@ func (g *VCGen) mergeStates(b *ssa.BasicBlock, preds []*ssa.BasicBlock) *State {
 }
 
 func (g *VCGen) block(b *ssa.BasicBlock) {
+	g.curBlock = b
 	if b.Index == 0 {
 		g.reach[b] = "true"
 		g.pathCond = "true"
@@ -427,7 +428,33 @@ func (g *VCGen) headerLocals(li *loopInfo) func(string) (SpecVal, bool) {
 // localsAt resolves a source-level variable name to the SSA value holding it at the head of block b.
 // subst overrides phi values (edge substitution).
 func (g *VCGen) localsAt(b *ssa.BasicBlock, subst map[ssa.Value]SpecVal) func(string) (SpecVal, bool) {
+	return g.localsAtInstr(b, nil, subst)
+}
+
+// localsAtInstr: like localsAt, but names are resolved as of just before instruction upTo of block b
+// (definitions earlier in the same block are visible).
+func (g *VCGen) localsAtInstr(b *ssa.BasicBlock, upTo ssa.Instruction, subst map[ssa.Value]SpecVal) func(string) (SpecVal, bool) {
 	return func(name string) (SpecVal, bool) {
+		if upTo != nil {
+			// the latest definition in this block before upTo
+			var last *ssa.DebugRef
+			for _, in := range b.Instrs {
+				if in == upTo {
+					break
+				}
+				if dr, ok := in.(*ssa.DebugRef); ok && dr.Object() != nil && dr.Object().Name() == name && !dr.IsAddr {
+					last = dr
+				}
+			}
+			if last != nil {
+				if c, ok := last.X.(*ssa.Const); ok {
+					return g.constVal(c), true
+				}
+				if s, ok := g.vals[last.X]; ok {
+					return s, true
+				}
+			}
+		}
 		if strings.HasPrefix(name, "$") {
 			// escape hatch: SSA value by name
 			for _, bb := range g.fn.Blocks {
@@ -469,6 +496,10 @@ func (g *VCGen) localsAt(b *ssa.BasicBlock, subst map[ssa.Value]SpecVal) func(st
 			}
 			for _, in := range bb.Instrs {
 				if al, ok := in.(*ssa.Alloc); ok && al.Comment == name {
+					if t, ok := g.forwardedLoad(al, b, nil); ok && (singleStore(al).Block() != b) {
+						et := al.Type().Underlying().(*types.Pointer).Elem()
+						return SpecVal{t, g.so.sortOf(et), et}, true
+					}
 					if sv, ok := g.vals[al]; ok {
 						et := al.Type().Underlying().(*types.Pointer).Elem()
 						if _, isArr := et.Underlying().(*types.Array); !isArr && !g.isImmutable(et) {
@@ -737,9 +768,27 @@ func (g *VCGen) loopBackEdge(from, h *ssa.BasicBlock) {
 		for _, u := range li.lc.Uses {
 			g.assumeHere(g.lemmaInstance(env, u))
 		}
+		for k, a := range li.lc.Asserts {
+			nm := fmt.Sprintf("%s.assert.%d", g.loopName(li), k)
+			if nbackEdges(g, h) > 1 {
+				nm = fmt.Sprintf("%s.assert@b%d.%d", g.loopName(li), from.Index, k)
+			}
+			g.oblige(nm, "invariant", g.trGoal(env, a), "cut: "+a.Text, pos)
+			g.assumeHere(g.trClause(env, a))
+		}
 		g.cur = saveCur
 	}
-	g.checkInvariants(li, g.exitSt[from], subst, "preserve", pos)
+	phase := "preserve"
+	nback := 0
+	for _, p := range h.Preds {
+		if g.backEdge[[2]int{p.Index, h.Index}] {
+			nback++
+		}
+	}
+	if nback > 1 {
+		phase = fmt.Sprintf("preserve@b%d", from.Index)
+	}
+	g.checkInvariants(li, g.exitSt[from], subst, phase, pos)
 	if f := g.frameSoFar(g.exitSt[from]); f != "true" {
 		g.oblige(g.loopName(li)+".frame.preserve", "frame", f, "modifies clause respected by loop body", pos)
 	}
@@ -957,7 +1006,7 @@ func (g *VCGen) indexAddr(x *ssa.IndexAddr) {
 		g.oblige(fmt.Sprintf("nopanic.index@%s", x.Name()), "nopanic", goal, "index out of range", x.Pos())
 		g.assumeHere(goal)
 		heap := g.so.sliceHeapFor(t.Elem())
-		g.addrs[x] = &Addr{Kind: "elem", Heap: heap, Ref: fmt.Sprintf("(s.base %s)", s.T), Idx: fmt.Sprintf("(+ (s.off %s) %s)", s.T, i.T), Elem: t.Elem(), Root: t.Elem()}
+		g.addrs[x] = &Addr{Kind: "elem", Heap: heap, Ref: fmt.Sprintf("(s.base %s)", s.T), Idx: fmt.Sprintf("(sidx (s.off %s) %s)", s.T, i.T), Elem: t.Elem(), Root: t.Elem()}
 	case *types.Pointer:
 		at := t.Elem().Underlying().(*types.Array)
 		p := g.val(x.X)
@@ -987,6 +1036,11 @@ func (g *VCGen) indexInstr(x *ssa.Index) {
 func (g *VCGen) unop(x *ssa.UnOp) {
 	switch x.Op {
 	case token.MUL: // load
+		if t, ok := g.forwardedLoad(x.X, x.Block(), x); ok {
+			sv := g.define(x, t)
+			g.assumeHere(g.allocFact(sv.T, x.Type(), g.cur))
+			return
+		}
 		a := g.addrOf(x.X)
 		if g.eng.hasOutOfLineFields(a.Elem) {
 			// struct values are self-contained: read the out-of-line cells into the copy
@@ -1231,6 +1285,105 @@ func (g *VCGen) storeInstr(x *ssa.Store) {
 		}
 	}
 	g.store(g.cur, a, v.T)
+}
+
+// singleStore: the only store into a private local cell (whole-cell store), if there is exactly one
+func singleStore(al *ssa.Alloc) *ssa.Store {
+	if !privateAlloc(al) {
+		return nil
+	}
+	var st *ssa.Store
+	var walk func(v ssa.Value, root bool) bool
+	walk = func(v ssa.Value, root bool) bool {
+		for _, r := range *v.Referrers() {
+			switch x := r.(type) {
+			case *ssa.Store:
+				if x.Addr == v {
+					if !root || st != nil {
+						return false // a field store, or a second store
+					}
+					st = x
+				}
+			case *ssa.FieldAddr:
+				if !walk(x, false) {
+					return false
+				}
+			case *ssa.IndexAddr:
+				return false
+			}
+		}
+		return true
+	}
+	if !walk(al, true) || st == nil {
+		return nil
+	}
+	return st
+}
+
+// forwardedLoad: a load from (a field of) a private local cell that is stored exactly once, before the load, is
+// the stored value itself (keeps terms syntactically identical across heap versions).
+func (g *VCGen) forwardedLoad(addr ssa.Value, blk *ssa.BasicBlock, at ssa.Instruction) (string, bool) {
+	var path []*ssa.FieldAddr
+	v := addr
+	for {
+		fa, ok := v.(*ssa.FieldAddr)
+		if !ok {
+			break
+		}
+		path = append([]*ssa.FieldAddr{fa}, path...)
+		v = fa.X
+	}
+	al, ok := v.(*ssa.Alloc)
+	if !ok {
+		return "", false
+	}
+	et := al.Type().Underlying().(*types.Pointer).Elem()
+	if g.eng.hasOutOfLineFields(et) || g.isImmutable(et) {
+		return "", false
+	}
+	st := singleStore(al)
+	if st == nil {
+		return "", false
+	}
+	if st.Block() == blk {
+		before := false
+		for _, in := range blk.Instrs {
+			if in == ssa.Instruction(st) {
+				before = true
+				break
+			}
+			if in == at {
+				break
+			}
+		}
+		if !before {
+			return "", false
+		}
+	} else if !st.Block().Dominates(blk) {
+		return "", false
+	}
+	sv, ok := g.vals[st.Val]
+	if !ok {
+		if c, isC := st.Val.(*ssa.Const); isC {
+			sv = g.constVal(c)
+		} else {
+			return "", false
+		}
+	}
+	term := sv.T
+	cur := et
+	for _, fa := range path {
+		cst, ok := cur.Underlying().(*types.Struct)
+		if !ok {
+			return "", false
+		}
+		if g.eng.isOutOfLine(cur, cst, fa.Field) {
+			return "", false
+		}
+		term = fmt.Sprintf("(%s %s)", g.so.fieldSel(g.so.sortOf(cur), cst.Field(fa.Field).Name(), fa.Field), term)
+		cur = cst.Field(fa.Field).Type()
+	}
+	return term, true
 }
 
 type fieldInvRef struct {
@@ -1489,6 +1642,9 @@ func (g *VCGen) panicInstr(x *ssa.Panic) {
 	kind := panicKind(x)
 	name := fmt.Sprintf("panic@b%d", x.Block().Index)
 	if g.fc != nil && g.fc.MayPanic {
+		if noPanicAt(g.fc, "explicit") {
+			g.oblige("nopanic.explicit."+name, "nopanic", "false", "explicit panic must be unreachable (contract says 'nopanic explicit')", x.Pos())
+		}
 		g.pathCond = "false"
 		return
 	}
@@ -1588,4 +1744,14 @@ func heapsStoredInLoop(g *VCGen, li *loopInfo) map[string]bool {
 		}
 	}
 	return out
+}
+
+func nbackEdges(g *VCGen, h *ssa.BasicBlock) int {
+	n := 0
+	for _, p := range h.Preds {
+		if g.backEdge[[2]int{p.Index, h.Index}] {
+			n++
+		}
+	}
+	return n
 }
